@@ -1331,6 +1331,10 @@ class Tensor:
             self.clear_graph()
             return
 
+        if self._base is not None and self._creator is None:
+            # tensor's graph has been cleared, but its base lingers
+            self._base = None
+
         topo_sorted_tensors: Deque["Tensor"] = deque([])
         seen: Set[int] = set()
 
